@@ -43,10 +43,52 @@ def Cnt.one : Cnt := ⟨1, 0⟩
 
 abbrev Res (α : Type) := Except Err (α × List Char)
 
+instance {ε β : Type} [DecidableEq ε] [DecidableEq β] : DecidableEq (Except ε β)
+  | .ok a, .ok b => if h : a = b then isTrue (by rw [h]) else isFalse (by intro e; cases e; exact h rfl)
+  | .error a, .error b => if h : a = b then isTrue (by rw [h]) else isFalse (by intro e; cases e; exact h rfl)
+  | .ok _, .error _ => isFalse (by intro e; cases e)
+  | .error _, .ok _ => isFalse (by intro e; cases e)
+
+section DecEq
+variable {α : Type} [DecidableEq α]
+mutual
+/-- decidable equality of nested structures (the shared `Frag`/`Items` derive none) -/
+def decFrag : (a b : Frag α) → Decidable (a = b)
+  | .atom x, .atom y =>
+    if h : x = y then isTrue (by rw [h]) else isFalse (by intro e; cases e; exact h rfl)
+  | .group s, .group t =>
+    match decItems s t with
+    | isTrue h => isTrue (by rw [h])
+    | isFalse h => isFalse (by intro e; cases e; exact h rfl)
+  | .atom _, .group _ => isFalse (by intro e; cases e)
+  | .group _, .atom _ => isFalse (by intro e; cases e)
+def decItems : (a b : Items α) → Decidable (a = b)
+  | .nil, .nil => isTrue rfl
+  | .cons c f r, .cons c' f' r' =>
+    if hc : c = c' then
+      match decFrag f f' with
+      | isTrue hf =>
+        match decItems r r' with
+        | isTrue hr => isTrue (by rw [hc, hf, hr])
+        | isFalse h => isFalse (by intro e; cases e; exact h rfl)
+      | isFalse h => isFalse (by intro e; cases e; exact h rfl)
+    else isFalse (by intro e; cases e; exact hc rfl)
+  | .nil, .cons _ _ _ => isFalse (by intro e; cases e)
+  | .cons _ _ _, .nil => isFalse (by intro e; cases e)
+end
+instance : DecidableEq (Frag α) := decFrag
+instance : DecidableEq (Items α) := decItems
+end DecEq
+
 /-! ## characters -/
 
 /-- pyparsing's default whitespace `" \t\r\n"` (also what `White()` matches) -/
-def isWs (c : Char) : Bool := c == ' ' || c == '\t' || c == '\n' || c == '\r'
+def isWs (c : Char) : Bool := c.toNat = 32 || c.toNat = 9 || c.toNat = 10 || c.toNat = 13
+
+/-- `[A-Z]`, `[a-z]`, `[0-9]` of a Python `str` pattern: ASCII only -/
+def isUp (c : Char) : Bool := 65 ≤ c.toNat && c.toNat ≤ 90
+def isLo (c : Char) : Bool := 97 ≤ c.toNat && c.toNat ≤ 122
+def isDig (c : Char) : Bool := 48 ≤ c.toNat && c.toNat ≤ 57
 
 def skipWs : List Char → List Char
   | [] => []
@@ -55,7 +97,7 @@ def skipWs : List Char → List Char
 /-- longest prefix of ASCII digits, and the rest -/
 def digits : List Char → List Char × List Char
   | [] => ([], [])
-  | c :: cs => if c.isDigit then ((digits cs).1.cons c, (digits cs).2) else ([], c :: cs)
+  | c :: cs => if isDig c then ((digits cs).1.cons c, (digits cs).2) else ([], c :: cs)
 
 /-- `int(text)` of a digit string -/
 def natOf (ds : List Char) : Nat := ds.foldl (fun n c => n * 10 + (c.toNat - 48)) 0
@@ -65,7 +107,7 @@ def natOf (ds : List Char) : Nat := ds.foldl (fun n c => n * 10 + (c.toNat - 48)
 /-- `Regex("[1-9][0-9]*")` at the head (no pre-skip) -/
 def reWhole : List Char → Option (List Char × List Char)
   | [] => none
-  | c :: cs => if c.isDigit && c != '0' then some (c :: (digits cs).1, (digits cs).2) else none
+  | c :: cs => if isDig c && c.toNat != 48 then some (c :: (digits cs).1, (digits cs).2) else none
 
 /-- `Regex("(0|[1-9][0-9]*|)([.][0-9]*)")` at the head: (integer digits, fraction digits, rest).
     The alternation is ordered; since only `.` may follow, no other backtracking helps. -/
@@ -125,10 +167,10 @@ def pSymbol (T : Table) (s : List Char) : Res Entry :=
   match skipWs s with
   | [] => .error .fail
   | c :: cs =>
-    if c.isUpper then
+    if isUp c then
       match cs with
       | d :: ds =>
-        if d.isLower then
+        if isLo d then
           match T.lookup [c, d] with
           | some e => .ok (e, ds)
           | none => .error .abort
